@@ -31,7 +31,8 @@ __all__ = [
     "i2osp", "os2ip", "mgf1",
     "oaep_max_msg_len", "oaep_encode", "oaep_decode", "oaep_build_em",
     "pkcs1v15_enc_pad", "pkcs1v15_enc_decode",
-    "HASH_OIDS", "HASH_DIGEST_SIZES", "canonical_hash_name", "digest_info",
+    "HASH_OIDS", "HASH_DIGEST_SIZES", "NULL_PARAMS_REQUIRED",
+    "canonical_hash_name", "digest_info",
     "emsa_pkcs1_v15", "pkcs1v15_sig_verify_em",
     "pss_encode", "pss_verify", "pss_build_em",
     "rsa_public", "rsa_private", "selftest",
@@ -384,15 +385,33 @@ def emsa_pkcs1_v15(hash_name, digest, em_len, with_null=True,
     return em
 
 
-def pkcs1v15_sig_verify_em(em, hash_name, digest):
+# RFC 8017 A.2.4: "The parameters field associated with id-md2 and id-md5
+# shall have a value of type NULL" (MD4 is treated alike), whereas for the SHA
+# family "implementations MUST accept AlgorithmIdentifier values both without
+# parameters and with NULL parameters".
+NULL_PARAMS_REQUIRED = frozenset({"MD2", "MD4", "MD5"})
+
+
+def pkcs1v15_sig_verify_em(em, hash_name, digest, allow_absent_params=None):
     """RSASSA-PKCS1-V1_5-VERIFY steps 3-4 (8.2.2): compare em against the
     canonical re-encoding.  True iff em equals the canonical EM with NULL
-    parameters or the canonical EM with absent parameters (9.2, note on
-    omitted parameters / Appendix A.2.4); anything else is False."""
+    parameters or (when allowed) the canonical EM with absent parameters;
+    anything else - BER variants, short PS, trailing garbage, ... - is False.
+
+    allow_absent_params: None  -> RFC 8017 A.2.4 policy: the variant without
+                                  NULL is accepted for every hash except
+                                  MD2 / MD4 / MD5 (NULL_PARAMS_REQUIRED)
+                         True  -> accepted for every hash
+                         False -> only the encoding with NULL is accepted
+    """
     em = bytes(em)
-    for with_null in (True, False):
+    name = canonical_hash_name(hash_name)
+    if allow_absent_params is None:
+        allow_absent_params = name not in NULL_PARAMS_REQUIRED
+    variants = (True, False) if allow_absent_params else (True,)
+    for with_null in variants:
         try:
-            expected = emsa_pkcs1_v15(hash_name, digest, len(em), with_null)
+            expected = emsa_pkcs1_v15(name, digest, len(em), with_null)
         except ValueError:
             continue
         if expected == em:
@@ -754,10 +773,16 @@ def _selftest_emsa_v15(rng, counts):
                     continue
                 em = emsa_pkcs1_v15(name, d, em_len, with_null)
                 _check(len(em) == em_len, "emsa length")
+                if not with_null:
+                    _check(pkcs1v15_sig_verify_em(em, name, d) ==
+                           (name not in NULL_PARAMS_REQUIRED),
+                           "absent parameters policy (A.2.4)")
+                    _check(not pkcs1v15_sig_verify_em(em, name, d, False),
+                           "allow_absent_params=False")
                 _check(em[:2] == b"\x00\x01" and em.endswith(b"\x00" + t)
                        and set(em[2:em_len - len(t) - 1]) == {0xff},
                        "emsa layout")
-                _check(pkcs1v15_sig_verify_em(em, name, d), "emsa verify")
+                _check(pkcs1v15_sig_verify_em(em, name, d, True), "emsa verify")
                 counts["emsa_v15_ok"] += 1
                 # malformations
                 muts = []
@@ -775,7 +800,7 @@ def _selftest_emsa_v15(rng, counts):
                 muts.append(bytearray(b"\x00\x01" + b"\xff" * (em_len - len(t) - 4)
                                       + b"\x00" + t + b"\x00"))
                 for m in muts:
-                    _check(not pkcs1v15_sig_verify_em(bytes(m), name, d),
+                    _check(not pkcs1v15_sig_verify_em(bytes(m), name, d, True),
                            "emsa malformed accepted")
                     counts["emsa_v15_malformed_rejected"] += 1
             try:
